@@ -11,7 +11,7 @@ import (
 
 type ikeAnchors struct {
 	EncodeEncrypt, DecodeDecrypt, verifyIntegrity, calculateIntegrity *ssa.Function
-	encryptPayload, decryptPayload, decryptMsg, encryptMsg          *ssa.Function
+	encryptPayload, decryptPayload, decryptMsg, encryptMsg            *ssa.Function
 }
 
 func (c *Ctx) ikeFuncs(r *Report, prefix string) (*ikeAnchors, bool) {
@@ -296,7 +296,9 @@ func (c *Ctx) fullCompareRules(r *Report, prefix string, a *ikeAnchors) {
 		cerr = errResult(ccalls[0])
 	}
 	x, y := cmp.Call.Args[0], cmp.Call.Args[1]
-	isRecv := func(v ssa.Value) bool { return paramIndex(vf, v) >= 0 && isByteSlice(v.Type()) && v.Name() != vf.Params[0].Name() }
+	isRecv := func(v ssa.Value) bool {
+		return paramIndex(vf, v) >= 0 && isByteSlice(v.Type()) && v.Name() != vf.Params[0].Name()
+	}
 	okOps := expected != nil && ((isRecv(x) && y == expected) || (isRecv(y) && x == expected))
 	r.Check(okOps, rule, "ike.verifyIntegrity: operands of "+c.SrcExpr(cmp), c.InstrPos(cmp), "operands are the unsliced checksum parameter and the unsliced result of calculateIntegrity", "an operand of the comparison is not the whole received checksum / whole computed checksum (a shorter slice would weaken the check)")
 	r.Check(cerr != nil && onNilErrEdge(cerr, cmp.Block()), rule, "ike.verifyIntegrity: computed checksum is valid", c.InstrPos(cmp), "the comparison is on the nil-error edge of calculateIntegrity", "the comparison may use a checksum from a failed computation")
